@@ -60,12 +60,13 @@ Plan gen_repair(uint64_t seed, const string &prop) {
   int nops = r.chance(0.35) ? (int)r.range(5, 14) : (int)r.range(15, 70);
   int nkeys = (int)r.range(2, 14);
   uint64_t tag = 1;
+  bool edge_keys = r.chance(0.5); // the empty key and an all-0xff key take the place of two ordinary ones
   for (int i = 0; i < nops; i++) {
     Op o; int c = (int)r.below(100);
     if (c < 55) {
       o.kind = O_WRITE;
       int n = (int)r.range(1, 4);
-      for (int q = 0; q < n; q++) { Upd u; char kb[32]; snprintf(kb, sizeof kb, "rk%02d", (int)r.below(nkeys)); u.key = kb; u.del = r.chance(0.2); if (!u.del) { u.tag = tag++; u.fill = (int)r.below(2); u.len = r.chance(0.9) ? (uint32_t)r.range(10, 900) : (uint32_t)r.range(2000, 30000); } o.ups.push_back(u); }
+      for (int q = 0; q < n; q++) { Upd u; char kb[32]; int ki = (int)r.below(nkeys); snprintf(kb, sizeof kb, "rk%02d", ki); u.key = kb; if (edge_keys && ki == 0) u.key = ""; if (edge_keys && ki == 1) u.key = string(3, '\xff'); u.del = r.chance(0.2); if (!u.del) { u.tag = tag++; u.fill = (int)r.below(2); u.len = r.chance(0.9) ? (uint32_t)r.range(10, 900) : (uint32_t)r.range(2000, 30000); } o.ups.push_back(u); }
     } else if (c < 75) o.kind = O_FLUSH;
     else if (c < 95) { o.kind = O_COMPACT_RANGE; o.a = (int)r.below(r.chance(0.3) ? 6 : 4); }
     else o.kind = O_REOPEN;
